@@ -496,7 +496,7 @@ struct Init {
             }
             Profile p; p.id = "C18"; p.level = "exploration"; p.space_seeds = (long)cases.size();
             p.technique = "deterministic simulation: enumeration of definition sets around every size threshold of the three formats on the sparse simulated file system, with element accesses on both sides of 2^31 / 2^32 checked against the raw image";
-            p.rule = "variable templates per format with byte sizes just below / at / above 2^31-4 (CDF-1), 2^32-4 (CDF-2) and 2^63-4 (CDF-5, incl. a 2^64 overflow) plus a small one; every sequence of 1..3 variables (each fixed or record, at most two large) is one case, plus dimension lengths -1, 2^31-1, 2^31, 2^32-1, 2^32, 2^63-1 per format: " + std::to_string(cases.size()) + " cases, seeds 1.." + std::to_string(cases.size()) + " enumerate them all (later seeds repeat them with 2 ranks / other schedules); oracle (a) def_dim and enddef return codes against a rule table written from the format limits (exact integer arithmetic); (b) for accepted definitions the header on the sparse simulated disk decodes strictly, begins are ordered / non-overlapping / below 2^31 in CDF-1, vsize saturates as specified, ncmpi_inq_varoffset agrees; first / last elements, elements whose byte offsets straddle 2^31 and 2^32, a 2-element box and a strided pair are written (blocking, nonblocking, strided) by alternating ranks, found at the independently computed byte offset of the raw image and read back by every rank; non-trivial = the case reached enddef";
+            p.rule = "variable templates per format with byte sizes just below / at / above 2^31-4 (CDF-1), 2^32-4 (CDF-2) and 2^63-4 (CDF-5, incl. a 2^64 overflow) plus a small one; every sequence of 1..3 variables (each fixed or record, at most two large) is one case, plus dimension lengths -1, 2^31-1, 2^31, 2^32-1, 2^32, 2^63-1 per format: " + std::to_string(cases.size()) + " cases, seeds 1.." + std::to_string(cases.size()) + " enumerate them all; later seeds repeat them with 1..3 ranks / other schedules and, in turn, (1) the variables split over two define-mode sessions (enddef, redef, enddef: the rule applies to the whole list), (2) pairs of nonblocking writes completed by one wait whose distance is exactly k*2^32 bytes, within one variable or across variables, (3) hint nc_num_aggrs_per_node with two ranks writing blocks 2^31..2^32 (+k*2^32) bytes apart in one collective call; oracle (a) def_dim and enddef return codes against a rule table written from the format limits (exact integer arithmetic); (b) for accepted definitions the header on the sparse simulated disk decodes strictly, begins are ordered / non-overlapping / below 2^31 in CDF-1, vsize saturates as specified, ncmpi_inq_varoffset agrees; first / last elements, elements whose byte offsets straddle 2^31 and 2^32, a 2-element box and a strided pair are written (blocking, nonblocking, strided) by alternating ranks, found at the independently computed byte offset of the raw image and read back by every rank; non-trivial = the case reached enddef";
             p.gen = [](uint64_t seed, bool th) {
                 Program q; q.seed = seed; q.cfg.profile = "C18";
                 size_t ci = (size_t)((seed - 1) % cases.size()); uint64_t lap = (seed - 1) / cases.size(); const Case &cs = cases[ci];
@@ -528,6 +528,46 @@ struct Init {
                             if (!ok) continue;
                             if (rec) st[0] = 2;
                             if (st[nd - 1] + 1 < len[nd - 1]) { auto ct = one; ct[nd - 1] = 2; add(st, ct, (int)(k % 2)); } else add(st, one, 0);
+                        }
+                    }
+                }
+                if (lap >= 1 && !cs.baddim) {
+                    // later laps: the same definitions with (1) the variables split over two define-mode sessions, (2) two nonblocking writes completed by one wait that lie exactly
+                    // k * 2^32 bytes apart (end of the lower to start of the upper), (3) intra-node aggregation with two ranks writing > 2 GiB apart in one collective call
+                    sim::Rng vr(seed * 1099511628211ULL + 5); int variant = (int)(lap % 4);
+                    typedef __int128 i128;
+                    struct FV { size_t vi; i128 pos, bytes; int xs; std::vector<long long> len; };
+                    std::vector<FV> fv; { i128 pos = 0; for (size_t vi = 0; vi < bc.vars.size(); vi++) { if (cs.vars[vi].second) continue; FV f; f.vi = vi; f.pos = pos; f.xs = cdf::type_size(bc.vars[vi].type); f.bytes = f.xs; for (auto d : bc.vars[vi].dimids) { f.len.push_back(bc.dimlen[d]); f.bytes *= (i128)bc.dimlen[d]; } if (f.bytes > ((i128)1 << 70)) break; fv.push_back(f); pos += (f.bytes + 3) / 4 * 4; } }
+                    auto unlin = [](const FV &f, i128 e) { std::vector<long long> st(f.len.size(), 0); for (int d = (int)f.len.size() - 1; d >= 0; d--) { st[d] = (long long)(e % (i128)f.len[d]); e /= (i128)f.len[d]; } return st; };
+                    auto block = [&](const FV &f, i128 e, long long want, int mode, int writer) -> long long {   // a contiguous block of <= want elements starting at linear element e; returns its element count (0: does not fit)
+                        if (f.len.empty() || e < 0 || e * f.xs >= f.bytes) return 0;
+                        std::vector<long long> st = unlin(f, e); long long room = f.len.back() - st.back(); long long cnt = std::min(want, room); if (cnt <= 0) return 0;
+                        BigCase::Acc a; a.var = (int)f.vi; a.mode = mode; a.writer = writer; a.start = st; a.count.assign(f.len.size(), 1); a.count.back() = cnt; a.stride.assign(f.len.size(), 1); bc.acc.push_back(a); return cnt;
+                    };
+                    if (variant == 1 && bc.vars.size() >= 2) bc.split = 1 + (int)vr.below(bc.vars.size() - 1);
+                    if (variant == 2) {
+                        int w = 0;
+                        for (auto &fa : fv) for (int where = 0; where < 2; where++) for (long long kk : {1LL, 2LL}) {
+                            i128 nel = fa.bytes / fa.xs; i128 eA = where == 0 ? (i128)vr.below(8) : nel / 3; long long cA = 1 + (long long)vr.below(4);
+                            size_t mark = bc.acc.size(); long long gotA = block(fa, eA, cA, 3, w); if (!gotA) continue;
+                            i128 target = fa.pos + eA * fa.xs + (i128)gotA * fa.xs + ((i128)kk << 32); bool placed = false;
+                            for (auto &fb : fv) { if (target < fb.pos || target >= fb.pos + fb.bytes) continue; i128 ob = target - fb.pos; if (ob % fb.xs) break; if (block(fb, ob / fb.xs, 1 + (long long)vr.below(3), 1, w)) placed = true; break; }
+                            if (!placed) { bc.acc.resize(mark); continue; }
+                            if (vr.chance(0.5)) { std::swap(bc.acc[mark], bc.acc[mark + 1]); bc.acc[mark].mode = 3; bc.acc[mark + 1].mode = 1; }   // either posting order
+                            w++;
+                        }
+                    }
+                    if (variant == 3) {
+                        q.cfg.sim.nprocs = 2 + (int)vr.below(2); q.cfg.sim.node_of.assign(q.cfg.sim.nprocs, 0); bc.aggr = 1 + (int)vr.below(q.cfg.sim.nprocs - 1);
+                        for (auto &fa : fv) {
+                            if (fa.bytes < ((i128)1 << 31) + 65536) continue;
+                            for (long long kk : {0LL, 1LL}) {
+                                i128 D = ((i128)kk << 32) + ((i128)1 << 31) + 4096 * (i128)vr.below(8); if (D + 64 > fa.bytes) continue;
+                                int w0 = (int)vr.below(q.cfg.sim.nprocs), w1 = (w0 + 1 + (int)vr.below(q.cfg.sim.nprocs - 1)) % q.cfg.sim.nprocs;
+                                size_t mark = bc.acc.size(); i128 eA = (i128)vr.below(8);
+                                if (!block(fa, eA, 1 + (long long)vr.below(4), 4, w0)) continue;
+                                if (!block(fa, eA + D / fa.xs, 1 + (long long)vr.below(4), 5, w1)) { bc.acc.resize(mark); continue; }
+                            }
                         }
                     }
                 }
